@@ -113,6 +113,8 @@ type world struct {
 	inject  string // fault injected in this reconcile by a sweep / the parallel mode
 
 	gate *gate
+	hits map[string]int // how often the antecedents of the monitor's formulas were exercised (statistics only)
+	last map[string]any // the previous projection
 }
 
 type fakeCache struct{ w *world }
@@ -305,6 +307,88 @@ func (w *world) emit(ev string, m map[string]any) {
 	if w.phase != "none" {
 		w.back++
 	}
+	w.count(base)
+	w.last = base["post"].(map[string]any)
+}
+
+func foreignCtrl(o map[string]any, actor string) bool {
+	for _, x := range o["owners"].([]any) {
+		m := x.(map[string]any)
+		if m["controller"].(bool) && m["uid"].(string) != actor {
+			return true
+		}
+	}
+	return false
+}
+
+// count keeps statistics for the evidence file: how often each formula's antecedent was true.
+func (w *world) count(e map[string]any) {
+	if w.hits == nil {
+		return
+	}
+	ev, phase, applied := e["ev"].(string), e["phase"].(string), e["applied"].(bool)
+	control, _ := e["control"].(bool)
+	actor := e["actor"].(string)
+	pre := map[string]map[string]any{}
+	if w.last != nil {
+		for _, x := range w.last["objs"].([]any) {
+			pre[x.(map[string]any)["name"].(string)] = x.(map[string]any)
+		}
+	}
+	switch {
+	case ev == "call" && applied && phase == "establish":
+		w.hits["establish_writes"]++
+		if !control {
+			w.hits["establish_writes_inactive"]++
+		}
+	case ev == "call" && applied && phase == "release":
+		w.hits["release_writes"]++
+	}
+	if ev == "call" && applied {
+		t, _ := e["target"].(string)
+		if o, ok := pre[t]; ok {
+			if !o["exists"].(bool) {
+				w.hits["creates"]++
+			} else if foreignCtrl(o, actor) {
+				w.hits["writes_on_foreign_controlled"]++
+			}
+		}
+	}
+	if ev == "est-start" {
+		blocked, foreign := false, false
+		for _, x := range e["post"].(map[string]any)["objs"].([]any) {
+			o := x.(map[string]any)
+			in := false
+			for _, n := range e["pkg"].([]any) {
+				in = in || n == o["name"]
+			}
+			if !in {
+				continue
+			}
+			if o["exists"].(bool) && control && foreignCtrl(o, actor) {
+				blocked, foreign = true, true
+			}
+			if o["rej"].(bool) && (o["exists"].(bool) || control) {
+				blocked = true
+			}
+		}
+		if blocked {
+			w.hits["establish_starts_blocked"]++
+		}
+		if foreign {
+			w.hits["establish_starts_foreign_controller"]++
+		}
+		w.hits["establish_starts"]++
+	}
+	if r, _ := e["result"].(string); r != "" {
+		w.hits[ev+"_"+r]++
+		if ev == "end" && r == "ok" && !control && !e["faulty"].(bool) {
+			w.hits["inactive_reconciles_completed"]++
+		}
+	}
+	if ev == "gc" {
+		w.hits["gc_steps"]++
+	}
 }
 
 // classify maps a call to the model's action alphabet; "" = no counterpart in the model.
@@ -417,6 +501,7 @@ func newWorld(tw *trace.Writer, id string, init map[string]any, workers int) *wo
 	w := &world{s: s, c: c, sch: sch, tw: tw, scenID: id, pkgs: map[string][]string{}, rej: map[string]bool{}, crdBy: map[string]string{},
 		digests: map[string]string{}, uidBy: map[types.UID]string{}, revs: []string{"R1", "R2"}, yaml: map[string]string{}, phase: "none", workers: workers}
 	w.gate = &gate{}
+	w.hits = hits
 	w.gc = &gclient{Client: c, w: w}
 	for _, a := range init["oseq"].([]any) {
 		w.oseq = append(w.oseq, a.(string))
@@ -691,7 +776,11 @@ func (g *gate) done() {
 func (g *gate) start(w *world, seed int64) {
 	g.w, g.on, g.rng = w, true, rand.New(rand.NewSource(seed))
 	g.stop, g.stopped = make(chan struct{}), make(chan struct{})
-	g.base = runtime.NumGoroutine() + 1 // + the scheduler itself
+	// workers of the previous reconcile have returned but may not have exited yet
+	for runtime.NumGoroutine() > baseline {
+		runtime.Gosched()
+	}
+	g.base = baseline + 1 // + the scheduler itself
 	go g.schedule()
 }
 
@@ -846,7 +935,13 @@ type summary struct {
 	Counts     map[string]int `json:"counts"`
 	Samples    []any          `json:"samples"`
 	DriftByAbs map[string]int `json:"drift_by_abs"`
+	Hits       map[string]int `json:"hits"`
 }
+
+var hits = map[string]int{}
+
+// baseline is the number of goroutines of the idle driver (measured when main starts).
+var baseline = 1
 
 type parSpec struct {
 	Seed    int64 `json:"seed"`
@@ -938,6 +1033,7 @@ func main() {
 		_ = pprof.StartCPUProfile(f)
 		defer pprof.StopCPUProfile()
 	}
+	baseline = runtime.NumGoroutine()
 
 	raws, err := scen.Load(*scenarios)
 	if err != nil {
@@ -1032,6 +1128,7 @@ func main() {
 	}
 	sum.Events = tw.Lines
 	sum.Counts = tw.Counts
+	sum.Hits = hits
 	if err := tw.Close(); err != nil {
 		fmt.Fprintln(os.Stderr, err)
 		os.Exit(2)
